@@ -424,6 +424,12 @@ func (w *world) advAny(payload string) *anypb.Any {
 }
 
 func (w *world) collect(net *simnet.Net, session []byte, id string, payload string, who []int) (*anypb.Any, [][]byte) {
+	return w.collectAs(net, session, id, id, payload, who)
+}
+
+// collectAs asks for signatures under the spelling askID of a message id while counting on signatures over id
+// (a member that treats two spellings as one id must also remember what it signed under either).
+func (w *world) collectAs(net *simnet.Net, session []byte, askID, id string, payload string, who []int) (*anypb.Any, [][]byte) {
 	a := w.advAny(payload)
 	sigs := make([][]byte, w.n)
 	own, _ := k1util.Sign(w.keys[w.faulty], hashAny(session, id, a))
@@ -432,7 +438,7 @@ func (w *world) collect(net *simnet.Net, session []byte, id string, payload stri
 		if to == w.faulty {
 			continue
 		}
-		sigs[to] = w.askSig(net, to, id, a)
+		sigs[to] = w.askSig(net, to, askID, a)
 		if sigs[to] != nil && session != nil && string(session) == string(w.session) {
 			// Inject bypasses the Tap's response leg: record what the member signed, after verifying it.
 			d := hashAny(session, id, a)
@@ -575,7 +581,13 @@ func (w *world) adversary(ctx context.Context, netA *simnet.Net, fhA *simnet.Hos
 				}
 				verifrt.Sleep(time.Duration(verifrt.Intn("a", 6)) * time.Millisecond)
 			}
-			a2, s2 := w.collect(netA, w.session, id, p2, shuffled(others))
+			askID := id
+			if verifrt.Intn("a", 3) == 2 {
+				// the second round of requests names the same message id in another spelling
+				askID = []string{id + "/", id + "/.", "./" + id, "x/../" + id, strings.Replace(id, "/", "//", 1), " " + id, strings.ToUpper(id)}[verifrt.Intn("a", 7)]
+				verifrt.Probe("adv:message-id-in-another-spelling")
+			}
+			a2, s2 := w.collectAs(netA, w.session, askID, id, p2, shuffled(others))
 			if verifrt.Intn("a", 2) == 0 {
 				a1, s1 = w.collect(netA, w.session, id, p1, shuffled(others))
 			}
@@ -583,7 +595,11 @@ func (w *world) adversary(ctx context.Context, netA *simnet.Net, fhA *simnet.Hos
 				if verifrt.Intn("a", 2) == 0 {
 					w.sendMsg(netA, to, &pb.BCastMessage{Id: id, Message: a1, Signatures: s1})
 				} else {
-					w.sendMsg(netA, to, &pb.BCastMessage{Id: id, Message: a2, Signatures: s2})
+					mid := id
+					if askID != id && verifrt.Intn("a", 2) == 1 {
+						mid = askID
+					}
+					w.sendMsg(netA, to, &pb.BCastMessage{Id: mid, Message: a2, Signatures: s2})
 				}
 			}
 		case 2: // split requests: payload 1 to one half of the signers, payload 2 to the other, then mix lists
